@@ -476,6 +476,15 @@ def run(ctx):
         ctx.checker_errors.append(f"only {len(obs)} direction-rule obligations")
     ctx.discharge(obs, key + " [leaf direction block; sub-bundle loop body]", info)
     ctx.verify(cbf.top_engine(), cbf.VERIFY_TOP)
+    key, obs, info = cbf.replace_conn_obligations()
+    for u in info.get("unsupported", []):
+        ctx.unsupported.append((key, u))
+    if len(obs) < 2 and not info.get("unsupported"):
+        ctx.checker_errors.append(f"only {len(obs)} obligations for the per-member loop of replace_bundle_conn")
+    ctx.discharge(obs, key + " [per-member loop body]", info)
+    ctx.assumptions.append("replace_bundle_conn: one arbitrary member of the child's flattened port is proved (connected "
+                           "under the flattened port's own name, to the parent-side signal of the same path); that the "
+                           "loop visits every member, and that the cache entry is the child's, are decided by the bounded family")
     ctx.assumptions.append("direction rule: one arbitrary leaf and one arbitrary sub-bundle per loop are proved; the "
                            "induction over the bundle tree's depth (flip state at a leaf == parity of the flips on its "
                            "path) is the standard argument over those two facts and flatten_bundle_inst's start state, "
